@@ -23,7 +23,8 @@ REPO = os.environ.get("VERIF_REPO", "/repo")
 COQ = os.path.join(ROOT, "coq")
 BUILD = os.path.join(ROOT, "build")
 OCAML_OUT = os.path.join(BUILD, "ocaml")
-TARGET = os.path.join(BUILD, "target")
+TARGET = os.path.join(BUILD, "target" if REPO == "/repo" else "target-" + hashlib.sha256(REPO.encode()).hexdigest()[:8])
+HX = os.path.join(BUILD, "harness" if REPO == "/repo" else "harness-" + hashlib.sha256(REPO.encode()).hexdigest()[:8])
 sys.path.insert(0, os.path.join(ROOT, "tools"))
 from props import PROPS, COMMON_TRUSTED_BASE  # noqa: E402
 
@@ -246,11 +247,30 @@ def step_driver(cfg):
     return True, "built"
 
 
+def prepare_harness():
+    """build/harness/: Cargo.toml generated from harness/Cargo.toml.in with the repository path
+    substituted (so VERIF_REPO can point a development run at a scratch copy), src -> harness/src"""
+    os.makedirs(os.path.join(HX, ".cargo"), exist_ok=True)
+    toml = open(os.path.join(ROOT, "harness", "Cargo.toml.in")).read().replace("@REPO@", REPO)
+    for name, content in (("Cargo.toml", toml),
+                          (os.path.join(".cargo", "config.toml"), "[net]\noffline = true\n"),
+                          ("Cargo.lock", open(os.path.join(ROOT, "harness", "Cargo.lock")).read())):
+        p = os.path.join(HX, name)
+        if name == "Cargo.lock" and os.path.exists(p):
+            continue
+        if not os.path.exists(p) or open(p).read() != content:
+            open(p, "w").write(content)
+    link = os.path.join(HX, "src")
+    if not os.path.islink(link):
+        os.symlink(os.path.join(ROOT, "harness", "src"), link)
+
+
 def step_cargo(cfg, profiles):
+    prepare_harness()
     outs = {}
     for prof in profiles:
         cmd = ["cargo", "build", "--offline", "--bin", cfg["bin"]] + (["--release"] if prof == "release" else [])
-        rc, o = sh(cmd, cwd=os.path.join(ROOT, "harness"), timeout=1800)
+        rc, o = sh(cmd, cwd=HX, timeout=1800)
         outs[prof] = (rc == 0, o[-3000:])
     return outs
 
@@ -519,12 +539,13 @@ def setup():
             print("driver %s: %s" % (prop, dmsg if dok else "FAILED " + dmsg))
             if not dok:
                 return 1
-        rc, o = sh(["cargo", "build", "--offline", "--bins"], cwd=os.path.join(ROOT, "harness"), timeout=3000)
+        prepare_harness()
+        rc, o = sh(["cargo", "build", "--offline", "--bins"], cwd=HX, timeout=3000)
         print(o[-1500:])
         if rc != 0:
             return 1
         if any("release" in c.get("profiles", []) for c in PROPS.values()):
-            rc, o = sh(["cargo", "build", "--offline", "--bins", "--release"], cwd=os.path.join(ROOT, "harness"), timeout=3000)
+            rc, o = sh(["cargo", "build", "--offline", "--bins", "--release"], cwd=HX, timeout=3000)
             print(o[-1500:])
             if rc != 0:
                 return 1
